@@ -37,6 +37,8 @@ struct Shared {
     sends: AtomicUsize,
     script: Vec<SendRes>,
     rx: Mutex<Option<UnboundedReceiver<RecvItem>>>,
+    /// destination and kind (0 SYN, 1 SYN-ACK, 2 ACK, 3 BadCluster) of every send attempt
+    log: Mutex<Vec<(SocketAddr, u8)>>,
 }
 
 struct ScriptedTransport(Arc<Shared>);
@@ -57,7 +59,14 @@ impl Transport for ScriptedTransport {
 
 #[async_trait]
 impl Socket for ScriptedSocket {
-    async fn send(&mut self, _to: SocketAddr, _msg: ChitchatMessage) -> anyhow::Result<()> {
+    async fn send(&mut self, to: SocketAddr, msg: ChitchatMessage) -> anyhow::Result<()> {
+        let kind = match msg {
+            ChitchatMessage::Syn { .. } => 0,
+            ChitchatMessage::SynAck { .. } => 1,
+            ChitchatMessage::Ack { .. } => 2,
+            ChitchatMessage::BadCluster => 3,
+        };
+        self.shared.log.lock().unwrap().push((to, kind));
         let k = self.shared.sends.fetch_add(1, Ordering::SeqCst);
         let r = if self.shared.script.is_empty() { SendRes::Ok } else { self.shared.script[k % self.shared.script.len()] };
         match r {
@@ -92,7 +101,7 @@ pub fn run(seed: bool, events: Vec<(u64, Ev)>, script: Vec<SendRes>, t_end: u64)
         let interval_ticks: u64 = 512;
         let tick = |t: u64| Duration::from_nanos(t * crate::fmt::TICK_NS);
         let (tx, rx): (UnboundedSender<RecvItem>, _) = unbounded_channel();
-        let shared = Arc::new(Shared { sends: AtomicUsize::new(0), script, rx: Mutex::new(Some(rx)) });
+        let shared = Arc::new(Shared { sends: AtomicUsize::new(0), script, rx: Mutex::new(Some(rx)), log: Mutex::new(Vec::new()) });
         let transport = ScriptedTransport(shared.clone());
         let me: SocketAddr = ([127, 0, 0, 1], 20_001).into();
         let peer: SocketAddr = ([127, 0, 0, 1], 20_002).into();
@@ -180,5 +189,111 @@ pub fn run(seed: bool, events: Vec<(u64, Ev)>, script: Vec<SendRes>, t_end: u64)
             let _ = handle.initiate_shutdown();
         }
         Outcome { status, heartbeat, sends, model_events: model_events.into_iter().map(|e| e.1).collect(), deadlock }
+    })
+}
+
+
+/// One observed gossip round: the pools as the public API shows them just before the tick, and the
+/// destinations of the SYNs the round sent, in order.
+pub struct Round {
+    pub peers: Vec<SocketAddr>,
+    pub live: Vec<SocketAddr>,
+    pub dead: Vec<SocketAddr>,
+    pub seeds: Vec<SocketAddr>,
+    pub targets: Vec<SocketAddr>,
+    pub non_syn: usize,
+}
+
+pub fn me_addr() -> SocketAddr {
+    ([127, 0, 0, 1], 20_001).into()
+}
+
+pub fn peer_addr(k: u64) -> SocketAddr {
+    ([10, 1, 0, k as u8], 7000).into()
+}
+
+/// The real server loop with `nlive` peers that keep heartbeating and `ndead` peers that were heard
+/// of once; `seed_kind`: 0 none, 1 an address that is not a member, 2 the address of peer 1,
+/// 3 the node's own address. Returns the rounds observed.
+pub fn run_pool(nlive: u64, ndead: u64, seed_kind: u64, rounds: u64, short_grace: bool) -> Vec<Round> {
+    let rt = tokio::runtime::Builder::new_current_thread().enable_all().start_paused(true).build().unwrap();
+    rt.block_on(async move {
+        let interval_ticks: u64 = 512;
+        let tick = |t: u64| Duration::from_nanos(t * crate::fmt::TICK_NS);
+        let (tx, rx): (UnboundedSender<RecvItem>, _) = unbounded_channel();
+        let shared = Arc::new(Shared { sends: AtomicUsize::new(0), script: vec![], rx: Mutex::new(Some(rx)), log: Mutex::new(Vec::new()) });
+        let transport = ScriptedTransport(shared.clone());
+        let me = me_addr();
+        let outsider: SocketAddr = ([127, 0, 0, 1], 20_002).into();
+        let seeds: Vec<SocketAddr> = match seed_kind {
+            1 => vec![outsider],
+            2 => vec![peer_addr(1)],
+            3 => vec![me, outsider],
+            _ => vec![],
+        };
+        let config = ChitchatConfig {
+            chitchat_id: ChitchatId::new("srv".to_string(), 0, me),
+            cluster_id: "c".to_string(),
+            gossip_interval: tick(interval_ticks),
+            listen_addr: me,
+            seed_nodes: seeds.iter().map(|a| a.to_string()).collect(),
+            failure_detector_config: if short_grace {
+                // dead peers become scheduled for deletion after 3 s and are removed after 6 s
+                FailureDetectorConfig { dead_node_grace_period: Duration::from_secs(6), ..FailureDetectorConfig::default() }
+            } else {
+                FailureDetectorConfig::default()
+            },
+            marked_for_deletion_grace_period: Duration::from_secs(3600),
+            catchup_callback: None,
+            extra_liveness_predicate: None,
+        };
+        let start = tokio::time::Instant::now();
+        let handle = spawn_chitchat(config, Vec::new(), &transport).await.unwrap();
+        let ids: Vec<ChitchatId> = (1..=nlive + ndead).map(|k| ChitchatId::new(format!("p{k}"), 0, peer_addr(k))).collect();
+        let mut out = Vec::new();
+        for r in 0..rounds {
+            // heartbeats arrive between two gossip ticks
+            tokio::time::sleep_until(start + tick(r * interval_ticks + 200)).await;
+            let digest: Vec<chitchat::verif::VNodeDigest> = ids
+                .iter()
+                .enumerate()
+                .map(|(k, id)| chitchat::verif::VNodeDigest {
+                    chitchat_id: id.clone(),
+                    heartbeat: if (k as u64) < nlive { 10 + r } else { 10 },
+                    last_gc_version: 0,
+                    max_version: 0,
+                })
+                .collect();
+            if !ids.is_empty() {
+                let msg = ChitchatMessage::Syn { cluster_id: "c".to_string(), digest: chitchat::verif::digest_from_parts(digest) };
+                let _ = tx.send(RecvItem::Msg(peer_addr(1), msg));
+            }
+            // just before the next tick: the pools as the public API shows them
+            tokio::time::sleep_until(start + tick((r + 1) * interval_ticks - 1)).await;
+            let (peers, live, dead) = handle
+                .with_chitchat(|c| {
+                    let me_id = c.self_chitchat_id().clone();
+                    let peers: Vec<SocketAddr> = c.node_states().keys().filter(|i| **i != me_id).map(|i| i.gossip_advertise_addr).collect();
+                    let live: Vec<SocketAddr> = c.live_nodes().filter(|i| **i != me_id).map(|i| i.gossip_advertise_addr).collect();
+                    let dead: Vec<SocketAddr> = c.dead_nodes().map(|i| i.gossip_advertise_addr).collect();
+                    (peers, live, dead)
+                })
+                .await;
+            let before = shared.log.lock().unwrap().len();
+            tokio::time::sleep_until(start + tick((r + 1) * interval_ticks + 1)).await;
+            let log = shared.log.lock().unwrap();
+            let sent: Vec<(SocketAddr, u8)> = log[before..].to_vec();
+            drop(log);
+            out.push(Round {
+                peers,
+                live,
+                dead,
+                seeds: seeds.iter().filter(|a| **a != me).cloned().collect(),
+                targets: sent.iter().filter(|e| e.1 == 0).map(|e| e.0).collect(),
+                non_syn: sent.iter().filter(|e| e.1 != 0).count(),
+            });
+        }
+        let _ = handle.initiate_shutdown();
+        out
     })
 }
